@@ -172,6 +172,27 @@ CHECKS = {
              "of the other rules at every site is decided per document, not proved.",
         note="Trusted: as C06. Documents with non-executable definitions are outside the document model (engine side only).",
         design="4 C07"),
+    "C12": dict(
+        technique="Coq theorems on the model of the schema build (completeness of the validators, soundness of the interface "
+                  "type check) + SDL-level violation catalogue judged by specification predicates in Coq and run through "
+                  "create_engine",
+        text="Model/SchemaBuild.v transcribes schema_from_document (redefinitions refused), _validate_extensions, the extension "
+             "merge and the ten validators of _validate in the order GraphQLSchema.bake runs them; Model/SpecSchema.v states the "
+             "property's rules. Proved for every SDL model: duplicate type/directive definitions (built-ins included) are "
+             "refused; after the extensions are merged, a field of undefined type, an argument/input field whose type is "
+             "undefined or not an input type (field or directive, behind any wrappers, also when added by an extension), a "
+             "missing/undefined root, an object without fields, a union containing itself (also through an extension), a "
+             "repeated enum value, a scalar without implementation, a non-awaitable directive hook each make the build fail; the "
+             "engine's interface field-type check accepts only what IsValidImplementationFieldType accepts. The check rewrites "
+             "valid schema models (all type kinds, several interfaces/implementers, unions, input objects, custom and "
+             "type-system directives, extensions of every kind, with/without schema definition) with ~45 SDL-level violations; "
+             "create_engine must raise and leave no usable engine; the build model must predict built/rejected AND the set of "
+             "error kinds (29 message families); the specification predicates must confirm the rewritten model breaks a rule. "
+             "PARTIAL: completeness for the remaining interface clauses and for invalid extensions is decided per model, not "
+             "proved.",
+        note="Trusted: Coq kernel, generators, SDL printer; the lark grammar (syntax verdicts) and inspect (awaitability) are "
+             "oracles.",
+        design="4 C12"),
     "C14": dict(
         technique="Coq theorems on the model of Engine.subscribe + event-by-event correspondence on the real engine",
         text="Proved for every finite event sequence of the source: the responses are exactly the map of "
